@@ -32,7 +32,10 @@ Definition model_obs (c : case) : obs :=
          o_msg := f_msg r || (f_child r && h_msg h) |}
   | RMageChild ch =>
       let r := ParseAndRun (sc_args sc) (sc_init_err sc) (sc_clean_err sc) (sc_build sc) ch in
-      {| o_exit := kernel (f_code r); o_ran := o_ran (c_obs c); o_msg := f_msg r |}
+      (* the front end runs the program exactly once: the bodies started are those of one run of the program, in
+         which the body the process dies in is described as ending the process (BOsExit); the status comes from
+         what RunCompiled makes of the signaled child *)
+      {| o_exit := kernel (f_code r); o_ran := if f_child r then h_ran h else 0%nat; o_msg := f_msg r |}
   end.
 
 Definition obs_ok (m o : obs) : bool :=
